@@ -476,7 +476,7 @@ pub fn run(tier: &str, seed: u64) -> i32 {
     let mut st = sweep(
         "D-det(corpus of registries x rich settings; each case: all registration orders x map-iteration schedules (<= 2 deviating points + 4 uniform) x 3 fresh std-map processes)",
         &cases,
-        Duration::from_secs(if thorough { 1800 } else { 50 }),
+        Duration::from_secs(if thorough { 1800 } else { 150 }),
         |c| json!({"case": c.note, "settings": serde_json::to_value(&c.settings).unwrap()}),
         |c, ctx| check_case(c, ctx, Some(&plain), if thorough { 6000 } else { 500 }),
     );
